@@ -27,7 +27,8 @@ ASSUMPTIONS = [
 FLOORS = {'npv_calls': 500, 'pmt_pv_calls': 1000, 'sln_calls': 100,
           'xnpv_calls': 300, 'irr_calls': 100, 'xirr_calls': 100,
           'linearity_relations': 100, 'inversion_relations': 200,
-          'formula_calls': 50, 'layout_calls': 50, 'xnpv_timed_dates': 30}
+          'formula_calls': 50, 'layout_calls': 50, 'xnpv_timed_dates': 30,
+          'xnpv_zero_flows': 30}
 ANCHOR_FUNCS = {'xlcalculator/xlfunctions/financial.py': [
     'NPV', 'PMT', 'PV', 'SLN', 'XNPV', 'IRR', 'XIRR', '_xnpv', '_xirr']}
 TIMEOUT = {'quick': 600, 'thorough': 3000}
@@ -225,7 +226,8 @@ def run(ctx):
                              monitor='inversion', group='PV-PMT')
         # ---- SLN ----------------------------------------------------------------------
         cost = round(rng.uniform(0, 100000), 2)
-        salvage = round(rng.uniform(0, cost), 2)
+        # (an asset may also be worth more in the end than it cost)
+        salvage = round(rng.uniform(0, cost * rng.choice([1, 1, 1.5])), 2)
         life = rng.choice([1, 2, 5, 7, 10, 0.5, 12.5, 40])
         got = monitors.call_outcome(F['SLN'], cost, salvage, life)
         judge('SLN', f'SLN({cost},{salvage},{life})', got,
@@ -244,6 +246,11 @@ def run(ctx):
             dates[0] = float(int(dates[0]))
             ctx.event('xnpv_timed_dates')
         vals = [round(rng.uniform(-1000, 1000), 2) for _ in range(m)]
+        if rng.random() < 0.2:
+            # nothing flows on the first date (the discounting still starts
+            # there), or somewhere in between
+            vals[rng.choice([0, 0, m - 1, m // 2])] = 0.0
+            ctx.event('xnpv_zero_flows')
         span = (dates[-1] - dates[0]) / 365
         if r > -0.9 and abs(span * math.log10(1 + r)) < 250:
             terms = [mp.mpf(v) / mp.power(1 + mp.mpf(r),
